@@ -1488,6 +1488,29 @@ fn register_pls(r: &mut Registry) {
             );
         };
     }
+    // one component (with >= 2 targets the coefficient matrix is then not in standard memory
+    // layout) and the maximal number of components
+    macro_rules! model_nc {
+        ($name:literal, $ty:ident, $F:ty, $fp:ident, $tyname:literal, $algo:expr, $nc:expr) => {
+            r.model::<$ty<$F>>(
+                $name,
+                K,
+                &[$tyname, "Pls"],
+                None,
+                |p| {
+                    let (x, y, _, _) = pls_data::<$F>(p, false);
+                    let nc: usize = $nc(x.ncols().min(y.ncols()));
+                    $ty::<$F>::params(nc).algorithm($algo).fit(&Dataset::new(x, y)).expect("pls fit")
+                },
+                |m, p, f| $fp(m, p, false, f),
+                Some(|a, b| a == b),
+            );
+        };
+    }
+    model_nc!("pls_reg_model_one_component", PlsRegression, f64, fp_pls_reg, "PlsRegression", Algorithm::Nipals, |_m: usize| 1);
+    model_nc!("pls_can_model_one_component", PlsCanonical, f64, fp_pls_can, "PlsCanonical", Algorithm::Svd, |_m: usize| 1);
+    model_nc!("pls_cca_model_one_component", PlsCca, f64, fp_pls_cca, "PlsCca", Algorithm::Svd, |_m: usize| 1);
+    model_nc!("pls_reg_model_max_components", PlsRegression, f64, fp_pls_reg, "PlsRegression", Algorithm::Svd, |m: usize| m);
     // CCA models use the SVD variant: its power method reports `PowerMethodNotConvergedError` on some
     // small data sets (covered as an outcome by the `pls_cca_*` scenarios), and `build` must not fail
     model!("pls_reg_model", PlsRegression, f64, fp_pls_reg, "PlsRegression", Algorithm::Nipals, Some((Kind::Claim, false)));
